@@ -5,7 +5,7 @@ from __future__ import annotations
 from enum import IntEnum
 from typing import TYPE_CHECKING
 
-from aiomysensors.exceptions import MissingNodeError
+from aiomysensors.exceptions import InvalidMessageError, MissingNodeError
 from aiomysensors.model.message import Message
 
 from .protocol_20 import handle_missing_node_child
@@ -47,8 +47,13 @@ class IncomingMessageHandler(IncomingMessageHandler21):
         if message.node_id not in gateway.nodes:
             raise MissingNodeError(message.node_id)
 
+        try:
+            heartbeat = int(message.payload)
+        except ValueError as err:
+            raise InvalidMessageError(err, message) from err
+
         node = gateway.nodes[message.node_id]
-        node.heartbeat = int(message.payload)
+        node.heartbeat = heartbeat
 
         return message
 
